@@ -4,6 +4,7 @@ both sides of every algorithm switch x h x order x B x half x function, against
 R1 (mpmath expm of the Van Loan augmented matrix, 50 digits)."""
 import itertools
 import math
+import warnings
 
 import numpy as np
 
@@ -74,7 +75,8 @@ def norms(tier):
 
 
 def hs(tier):
-    return [1e-3, 1.0] if tier == "quick" else [1e-3, 1.0, 7.0]
+    # (steps above 1 separate ||A||_1 from ||A*h||_1 in the algorithm switches)
+    return [1e-3, 1.0, 2.0] if tier == "quick" else [1e-3, 1.0, 2.0, 7.0]
 
 
 _REF = {}
@@ -445,8 +447,72 @@ def check_ss_chain(sysname, res):
     return out
 
 
-def shards(tier, seed):
+def check_int_forms(res):
+    """integer-valued A handed over as an integer array, the step as a Python int, B with non-integer values (and in
+    integer / Fortran / list forms): every function gives the result of the float64 call"""
+    from pyyeti import expmint as em
+    from pyyeti.ssmodel import SSModel
+
     out = []
+    mats = {"jordan": [[-1, 1], [0, -1]], "singsym": [[-1, 1], [1, -1]], "lowsing": [[0, 0], [-2, -3]], "osc": [[0, -4], [1, -1]],
+            "tri3": [[-1, 2, 0], [0, -1, 1], [0, 0, -2]]}
+    for mname, rows in mats.items():
+        Af = np.array(rows, dtype=float)
+        n = Af.shape[0]
+        Bf = np.column_stack((np.linspace(0.5, 1.75, n), np.linspace(-0.3, 0.9, n)))
+        for hv in (1, 2, 3):
+            for fname_, fn in (("getEPQ", em.getEPQ), ("getEPQ1", em.getEPQ1), ("getEPQ2", em.getEPQ2)):
+                for order, bmode in itertools.product((0, 1), ("none", "float")):
+                    kw = dict(order=order) if bmode == "none" else dict(order=order, B=Bf.copy())
+                    try:
+                        with warnings.catch_warnings():
+                            warnings.simplefilter("ignore")
+                            base = fn(Af.copy(), float(hv), **kw)
+                    except Exception:  # noqa  (documented refusals are decided by the main grid)
+                        continue
+                    forms = {"A int64, h int": (np.array(rows, dtype=np.int64), hv), "A int32, h float": (np.array(rows, dtype=np.int32), float(hv)),
+                             "A float, h int": (Af.copy(), hv), "A Fortran, h int": (np.asfortranarray(Af), hv)}
+                    for form, (A_, h_) in forms.items():
+                        res.ev("intforms/%s/%s/o%d/B%s" % (fname_, form.split(",")[0], order, bmode))
+                        try:
+                            with warnings.catch_warnings():
+                                warnings.simplefilter("ignore")
+                                got = fn(A_, h_, **kw)
+                        except Exception as e:  # noqa
+                            out.append(("intforms", "%s(%s as %s, h=%r, order=%d, B=%s) raised %r" % (fname_, mname, form, h_, order, bmode, e)))
+                            continue
+                        for nm, g, b_ in zip("EPQ", got, base):
+                            g, b_ = np.asarray(g, float), np.asarray(b_, float)
+                            if g.shape != b_.shape or not np.allclose(g, b_, rtol=1e-13, atol=1e-15 * max(1.0, np.abs(b_).max(initial=0))):
+                                out.append(("intforms", "%s(%s given as %s, order=%d, B=%s): %s differs from the float64 call (max diff %.3g)"
+                                            % (fname_, mname, form, order, bmode, nm, float(np.abs(g - b_).max()) if g.shape == b_.shape else float("nan"))))
+                                break
+            # expmint and SSModel.c2d with the same forms
+            for form, (A_, h_) in {"A int64, h int": (np.array(rows, dtype=np.int64), hv), "A float, h int": (Af.copy(), hv)}.items():
+                try:
+                    with warnings.catch_warnings():
+                        warnings.simplefilter("ignore")
+                        b3 = em.expmint(Af.copy(), float(hv), True)
+                        g3 = em.expmint(A_, h_, True)
+                        ok = all(np.allclose(x, y, rtol=1e-13, atol=1e-300) for x, y in zip(g3, b3))
+                    if not ok:
+                        out.append(("intforms", "expmint(%s given as %s) differs from the float64 call" % (mname, form)))
+                    C = np.eye(n)[:1]
+                    D = np.zeros((1, 2))
+                    for meth in ("zoh", "foh", "tustin"):
+                        with warnings.catch_warnings():
+                            warnings.simplefilter("ignore")
+                            sb = SSModel(Af.copy(), Bf.copy(), C, D).c2d(float(hv), method=meth)
+                            sg = SSModel(A_, Bf.copy(), C, D).c2d(h_, method=meth)
+                        if not all(np.allclose(np.asarray(x, float), np.asarray(y, float), rtol=1e-12, atol=1e-14) for x, y in zip((sg.A, sg.B, sg.C, sg.D), (sb.A, sb.B, sb.C, sb.D))):
+                            out.append(("intforms", "SSModel(%s given as %s).c2d(%r, %r) differs from the float64 model" % (mname, form, h_, meth)))
+                except Exception as e:  # noqa
+                    out.append(("intforms", "expmint / c2d with %s given as %s raised %r" % (mname, form, e)))
+    return out
+
+
+def shards(tier, seed):
+    out = [dict(part="intforms", tier=tier)]
     for sysname in ("osc2", "mimo3", "first1"):
         out.append(dict(part="ss-chain", sys=sysname, tier=tier))
     for sysname in ("osc2", "mimo3", "first1"):
@@ -528,6 +594,10 @@ def run_shard(sh):
                 res.viol({"part": "mat", "s": sh["s"], "target": sh["target"], "h": h, "tier": tier, "fn": tag, "singular_big": bool(sb)},
                          msg, kind=("SB-" if sb else "") + tag.split("(")[0] + "-" + msg.split(":")[-2].strip()[:20] if ":" in msg else tag)
         res.sample({"part": "mat", "structure": sh["s"], "norm_Ah": sh["target"], "h": h, "signature": sig})
+    elif sh["part"] == "intforms":
+        for tag, msg in check_int_forms(res):
+            res.viol({"part": "intforms"}, msg, kind="intforms-" + msg.split("(")[0])
+        res.sample(dict(sh))
     elif sh["part"] == "ss-chain":
         for tag, msg, chain in check_ss_chain(sh["sys"], res):
             res.viol({"part": "ss-chain", "sys": sh["sys"], "chain": chain}, msg, kind="ss-chain-" + msg.split(":")[-1][:30])
@@ -557,6 +627,8 @@ def replay(case):
     if case["part"] == "mat":
         out, _, _, _ = check_matrix(case["s"], structures()[case["s"]], case["target"], case["h"], case["tier"], res)
         return [m for t, m in out if t == case.get("fn", t)] or [m for t, m in out]
+    if case["part"] == "intforms":
+        return [m for t, m in check_int_forms(res)]
     if case["part"] == "ss-chain":
         from vf.core import jsame
         return [m for t, m, ch in check_ss_chain(case["sys"], res) if jsame(ch, case["chain"])]
